@@ -3480,6 +3480,10 @@ fn validate_extension_declarations(
     extensions: Vec<ExpirationExtension2>,
 ) -> Result<ExtendExpirationsInner, ActorError> {
     let mut claim_space_by_sector = BTreeMap::<SectorNumber, (u64, u64)>::new();
+    // Sectors named by the declarations seen so far. A sector may be extended only once per
+    // message: the claim checks below bind a sector's claims to the new expiration of the
+    // declaration that lists them, and a second declaration would escape them.
+    let mut declared_sectors = BitField::new();
 
     for decl in &extensions {
         let policy = rt.policy();
@@ -3492,10 +3496,33 @@ fn validate_extension_declarations(
             ));
         }
 
+        let mut decl_sectors = BitField::new();
+        for sc in &decl.sectors_with_claims {
+            decl_sectors.set(sc.sector_number);
+        }
+        decl_sectors |= &decl.sectors;
+        if declared_sectors.contains_any(&decl_sectors) {
+            return Err(actor_error!(
+                illegal_argument,
+                "sectors {:?} are declared more than once",
+                &declared_sectors & &decl_sectors
+            ));
+        }
+        declared_sectors |= &decl_sectors;
+
         for sc in &decl.sectors_with_claims {
             let mut drop_claims = sc.drop_claims.clone();
             let mut all_claim_ids = sc.maintain_claims.clone();
             all_claim_ids.append(&mut drop_claims);
+            // Each claim counts once towards the sector's verified space.
+            let unique_claim_ids: BTreeSet<_> = all_claim_ids.iter().collect();
+            if unique_claim_ids.len() != all_claim_ids.len() {
+                return Err(actor_error!(
+                    illegal_argument,
+                    "sector {} declares a claim more than once",
+                    sc.sector_number
+                ));
+            }
             let claims = get_claims(rt, &all_claim_ids)
                 .with_context(|| format!("failed to get claims for sector {}", sc.sector_number))?;
             let first_drop = sc.maintain_claims.len();
